@@ -6,7 +6,7 @@ PID = 'C10'; HARNESS = 'C10.cpp'
 H_THROW = (-1000000) & 0xffffffff
 CREATE_C = '@_ZN6dsplib15create_fft_planEi'; CREATE_R = '@_ZN6dsplib16create_rfft_planEi'; KEYS = '@_ZN6dsplib20verif_fft_cache_keysEb'
 MAXN = 16; KCAP = 8
-KN = ['fft(complex)', 'fft(real)', 'ifft', 'irfft']
+KN = ['fft(complex)', 'fft(real)', 'ifft', 'irfft', 'fft(complex x[n-2], n)', 'fft(complex x[n/2], n)', 'fft(real x[n-2], n)', 'fft(real x[n/2], n)']
 
 def spec_hist(hist, xs, m=None):
     m = len(hist) if m is None else m
@@ -200,6 +200,16 @@ def main(tier, seed):
             others = [n for n in (5, 6, 10, 12, 16, 14, 7) if n != a and not (kind == 3 and n % 2)]
             for rot in range(2 if q else 4):
                 o = others[rot:] + others[:rot]; hs.append([(kind, a)] + [(kind, n) for n in o[:5]] + [(kind, a)])
+    # the other cache in between: a request, five requests that only touch the OTHER cache (complex <-> real), the request again
+    for (ka, kb) in ((1, 0), (0, 1), (3, 0), (2, 1)):
+        for a in ((5, 7, 13, 6) if q else (5, 7, 13, 6, 9, 11, 12)):
+            if ka == 3 and a % 2: continue
+            others = [n for n in (6, 9, 10, 12, 14, 15, 16) if n != a and not (kb == 3 and n % 2)]
+            hs.append([(ka, a)] + [(kb, n) for n in others[:5]] + [(ka, a)])
+    # zero-padded transforms: the same target length from inputs of different length, longer input first
+    for n in ((8, 12, 16) if q else (6, 8, 9, 12, 13, 16)):
+        for (k1, k2) in ((4, 5), (6, 7), (4, 7), (6, 5), (0, 5), (1, 7)):
+            hs.append([(k1, n), (k2, n)]); hs.append([(k1, n), (k2, n), (k1, n)])
     rnd.shuffle(hs)
     chunk = max(8, len(hs) // 48)
     for i in range(0, len(hs), chunk): jobs.append((f'histories {i}..', 'hist', dict(hists=hs[i:i + chunk]), 3000))
